@@ -354,13 +354,15 @@ def find_urls(data: bytes) -> list[Node]:
                 group = group[:close]
         if not is_url(group):
             continue
+        normalized, obfuscation = normalize_percent_encoding(group)
         out.append(
             Node(
                 URL_TYPE,
-                *normalize_percent_encoding(group),
+                normalized,
+                obfuscation,
                 start,
                 end,
-                children=parse_url(group),
+                children=parse_url(normalized),  # children index into the node's value
             )
         )
     return out
